@@ -97,13 +97,9 @@ async def diff_case(ctx, case: dict) -> None:
     straddle = newer == "2.2" and older in ("2.0", "2.1")
     from .. import harness
 
-    harness.CONFIG_EXTRA.clear()
-    harness.CONFIG_EXTRA.update(case.get("config_extra") or {})
-    try:
+    with harness.options(case["config_extra"] if "config_extra" in case else dict(harness.CONFIG_EXTRA)):
         g1, t1 = new_gateway(None if case.get("report_first") else older)
         g2, t2 = new_gateway(None if case.get("report_first") else newer)
-    finally:
-        harness.CONFIG_EXTRA.clear()
     s1, s2 = Stepper(g1, t1), Stepper(g2, t2)
     if case.get("report_first"):
         # each gateway learns ITS version from its own first report (the one step that necessarily differs); what the
